@@ -35,6 +35,8 @@ pub enum TinyOp {
     Ask(u8),
     Watch(u8),
     Note(u8),
+    /// question number of a burst request
+    AskN(u16),
 }
 
 #[derive(Clone, Debug, PartialEq, Eq, Serialize, Deserialize)]
@@ -149,12 +151,17 @@ pub enum Event {
     Legacy,
     /// only mutates the model: no effect at all, not even a render
     Quiet,
+    /// burst(n): n one-shot requests at once, each continuation folds (question, answer) into
+    /// the view. Not part of the explored menus: used by C09's scripted scale family.
+    Burst(u16),
     // ---- app-internal, but deserializable (they widen the decode surface for C12) ------------
     GotHttp(crux_http::Result<crux_http::Response<Vec<u8>>>),
     GotKvSet(Result<Option<Vec<u8>>, KeyValueError>),
     // ---- app-internal, not serializable: last ------------------------------------------------
     #[serde(skip)]
     Got(u8, TinyOut),
+    #[serde(skip)]
+    GotN(u16, TinyOut),
     #[serde(skip)]
     GotChain(TinyOut, TinyOut),
     #[serde(skip)]
@@ -193,6 +200,8 @@ pub struct Model {
     log: Vec<String>,
     renders: u32,
     quiet: u32,
+    burst_answers: u32,
+    burst_digest: u64,
     sub: Option<Box<dyn Fn() + Send + Sync>>,
     ctimer: Option<TimerHandle>,
     ctimers_made: u32,
@@ -205,6 +214,9 @@ pub struct ViewModel {
     pub log: Vec<String>,
     pub renders: u32,
     pub quiet: u32,
+    /// answers to burst requests so far, and an order-sensitive fold of every
+    /// (question, answer) pair: any answer reaching another continuation changes it
+    pub burst: (u32, u64),
     pub subscribed: bool,
     pub timers: (u32, u32),
 }
@@ -314,6 +326,17 @@ impl crux_core::App for App {
                 .then(
                     Command::request_from_shell(TinyOp::Ask(6)).then_send(|o| Event::Got(7, o)),
                 ),
+            Event::Burst(n) => Command::all((0..n).map(|q| {
+                Command::request_from_shell(TinyOp::AskN(q)).then_send(move |o| Event::GotN(q, o))
+            })),
+            Event::GotN(q, out) => {
+                model.burst_answers += 1;
+                model.burst_digest = model
+                    .burst_digest
+                    .wrapping_mul(0x100000001b3)
+                    .wrapping_add((u64::from(q) << 16) | u64::from(out.0));
+                Command::done()
+            }
             Event::Quiet => {
                 model.quiet += 1;
                 Command::done()
@@ -461,6 +484,7 @@ impl crux_core::App for App {
             log: model.log.clone(),
             renders: model.renders,
             quiet: model.quiet,
+            burst: (model.burst_answers, model.burst_digest),
             subscribed: model.sub.is_some(),
             timers: (model.ctimers_made, model.ltimers_all.len() as u32),
         }
